@@ -132,6 +132,31 @@ pub fn gen_program(rng: &mut Rng, b: &Board) -> Vec<GenOp> {
     let masks = if kind == 2 { vec![!0u64] } else { mask_sequence(rng, b, &ms) };
     for m in masks {
         prog.push(GenOp::K(m));
+        // removals are also "beforehand" when they come after a mask was set (or after the previous
+        // mask was exhausted) but before any move is yielded under it
+        if rng.chance(1, 3) {
+            let n = 1 + rng.below(3);
+            for _ in 0..n {
+                if rng.chance(1, 3) {
+                    let mm = match rng.below(3) {
+                        0 => rng.next_u64() & rng.next_u64(),
+                        1 => m & rng.next_u64(),
+                        _ => 1u64 << rng.below(64),
+                    };
+                    prog.push(GenOp::Y(mm));
+                } else {
+                    // prefer a move landing in the mask
+                    let inmask: Vec<ChessMove> = ms.iter().cloned().filter(|x| (1u64 << x.get_dest().to_index()) & m != 0).collect();
+                    if !inmask.is_empty() && rng.chance(2, 3) {
+                        prog.push(GenOp::X(inmask[rng.below(inmask.len())]));
+                    } else {
+                        prog.push(GenOp::X(interesting_removal(rng, b, &ms)));
+                    }
+                }
+            }
+            prog.push(GenOp::L);
+            prog.push(GenOp::H);
+        }
         let under = ms.iter().filter(|x| (1u64 << x.get_dest().to_index()) & m != 0).count();
         let bound = if rng.chance(1, 4) { 6 } else { 300 };
         drain_ops(rng, &mut prog, under.min(bound));
@@ -297,6 +322,9 @@ pub struct DrawPlan {
     pub irreversible_at: Option<usize>,
     /// percentage of plies that undo the mover's previous move (creates repetitions)
     pub undo_pct: usize,
+    /// from this ply on, a move that mates or stalemates is played as soon as one exists and the
+    /// history ends there (a finished game exactly at / around the fifty-move boundary)
+    pub finish_terminal_from: Option<usize>,
 }
 
 /// Builds `m…;c;m…;c;…;d` with `c` after every action.
@@ -316,6 +344,20 @@ pub fn draw_program(rng: &mut Rng, start: &Board, plan: &DrawPlan) -> Vec<Act> {
         let me = b.side_to_move().to_index();
         let rev: Vec<ChessMove> = ms.iter().cloned().filter(|m| is_reversible(&b, *m)).collect();
         let mut chosen: Option<ChessMove> = None;
+        if plan.finish_terminal_from.map(|p| ply >= p).unwrap_or(false) {
+            // a reversible move after which the opponent has no legal move (mate or stalemate)
+            let fin: Vec<ChessMove> = rev
+                .iter()
+                .cloned()
+                .filter(|m| guard(|| moves_of(&b.make_move_new(*m)).map(|v| v.is_empty()).unwrap_or(false)).unwrap_or(false))
+                .collect();
+            if !fin.is_empty() {
+                let m = fin[rng.below(fin.len())];
+                acts.push(Act::M(m));
+                acts.push(Act::Can);
+                break;
+            }
+        }
         if plan.irreversible_at == Some(ply) {
             let irr: Vec<ChessMove> = ms.iter().cloned().filter(|m| !is_reversible(&b, *m)).collect();
             if !irr.is_empty() {
